@@ -79,6 +79,9 @@ def run(pid, tier, seed, replay):
     chk.coverage["distinct_nontrivial"] = len({(id(s["classes"]), tuple(s["failAt"])) for s in scns})
     chk.coverage["crash_points_available"] = total_points
     chk.coverage["base_scenarios"] = bases
+    def failing(scn):
+        scn["failAt"] = sorted(rng.sample(range(1, 25), rng.randint(1, 2)))
+    ec.nonrtc_leg(chk, rng, 250 if quick else 4000, shards=2 if quick else 8, tweak=failing)
     chk.coverage["rule"] = ("every callback invocation position of a fault-free run is a crash point (quick: up to 12 sampled per "
                             "base scenario); the failing run continues with the remaining sends; base scenarios mix nested sends, "
                             "validators, machine/model/listener callbacks, both engines, rtc on/off")
